@@ -1,29 +1,10 @@
 /-
-  Lemmas/PyLex.lean — safety of the literal producers with respect to the lexer model:
-  plain quoting (`wrap_val`) is faithful exactly on strings without quote / backslash / newline,
-  the docstring template is faithful on descriptions without backslash / `"""` / carriage return.
+  Lemmas/PyLex.lean — the literal producers are faithful with respect to the lexer model:
+  the docstring template with `_docstring_text` escaping lexes back to the description for every
+  description without NUL; `repr(str)` lexes back to the string for every string.
 -/
 import TypedpyModel.Sem.PyLex
 namespace Typedpy.PyLex
-
-/-- characters that plain single-quoting leaves intact -/
-def plainChar (c : Char) : Bool :=
-  c != cSQ && c != cBS && c != cLF && c != cCR && c != cNUL
-
-/-- characters that the docstring template leaves intact (a `"` is fine unless three in a row) -/
-def docChar (c : Char) : Bool := c != cBS && c != cCR && c != cNUL
-
-/-- no `"""` starts anywhere in the list -/
-def noTriple : List Char → Bool
-  | [] => true
-  | c :: r => !(c == cDQ && r.take 2 == [cDQ, cDQ]) && noTriple r
-
-theorem plainChar_iff (c : Char) :
-    plainChar c = true ↔ c ≠ cSQ ∧ c ≠ cBS ∧ c ≠ cLF ∧ c ≠ cCR ∧ c ≠ cNUL := by
-  simp [plainChar, and_assoc]
-
-theorem docChar_iff (c : Char) : docChar c = true ↔ c ≠ cBS ∧ c ≠ cCR ∧ c ≠ cNUL := by
-  simp [docChar, and_assoc]
 
 theorem nnl_id (cs : List Char) (h : ∀ c ∈ cs, c ≠ cCR) : nnl false cs = cs := by
   induction cs with
@@ -35,119 +16,223 @@ theorem nnl_id (cs : List Char) (h : ∀ c ∈ cs, c ≠ cCR) : nnl false cs = c
 
 theorem emit_some (c : Char) (w : List Char) : emit c (some w) = some (c :: w) := rfl
 
-/-- the body of a short `'`-literal made of plain characters lexes to itself -/
-theorem lexS_plain (cs : List Char) (h : ∀ c ∈ cs, plainChar c = true) :
-    lexS false cSQ .norm (cs ++ [cSQ]) = some cs := by
-  induction cs with
-  | nil => simp [lexS, normCase, isClose, atEnd]
-  | cons c r ih =>
-    have hc := (plainChar_iff c).1 (h c (by simp))
-    have hr : ∀ d ∈ r, plainChar d = true := fun d hd => h d (by simp [hd])
-    obtain ⟨h1, h2, h3, _, _⟩ := hc
-    simp [lexS, normCase, isClose, h1, h2, h3, ih hr, emit_some]
-
-theorem lexSrc_wrapL (cs : List Char) (h : ∀ c ∈ cs, plainChar c = true) :
-    lexSrc (wrapL cs) = some cs := by
-  have hCR : ∀ c ∈ wrapL cs, c ≠ cCR := by
-    intro c hc
-    simp [wrapL] at hc
-    rcases hc with rfl | hc | rfl
-    · decide
-    · exact ((plainChar_iff c).1 (h c hc)).2.2.2.1
-    · decide
-  have hNUL : (wrapL cs).contains cNUL = false := by
-    apply Bool.eq_false_iff.2
-    intro hcon
-    have hm := List.contains_iff_mem.1 hcon
-    simp [wrapL] at hm
-    rcases hm with hm | hm | hm
-    · exact absurd hm (by decide)
-    · exact ((plainChar_iff cNUL).1 (h cNUL hm)).2.2.2.2 rfl
-    · exact absurd hm (by decide)
-  unfold lexSrc
-  rw [hNUL, normNewlines, nnl_id _ hCR]
-  simp [wrapL, lexS_plain cs h]
-
-/-! ### docstrings -/
+/-! ### docstrings: `"""\n    ` ++ `_docstring_text d` ++ `\n    """` -/
 
 theorem docTail_lex :
     lexS true cDQ .norm ([cLF] ++ indent4 ++ [cDQ, cDQ, cDQ]) = some ([cLF] ++ indent4) := by
   decide
 
-/-- a description without backslash / CR / NUL and without `"""`, followed by a tail that does not
-    start with a quote, lexes to itself followed by whatever the tail lexes to -/
-theorem lexS_doc (d t v : List Char) (hd : ∀ c ∈ d, docChar c = true) (hn : noTriple d = true)
-    (ht : ∀ c r, t = c :: r → c ≠ cDQ) (hv : lexS true cDQ .norm t = some v) :
-    lexS true cDQ .norm (d ++ t) = some (d ++ v) := by
-  induction d with
-  | nil => simpa using hv
-  | cons c r ih =>
-    have hc := (docChar_iff c).1 (hd c (by simp))
-    have hr : ∀ x ∈ r, docChar x = true := fun x hx => hd x (by simp [hx])
-    simp only [noTriple, Bool.and_eq_true, Bool.not_eq_true'] at hn
-    have ih' := ih hr hn.2
-    have hclose : isClose true cDQ c (r ++ t) = false := by
-      cases hq : (c == cDQ) with
-      | false => simp [isClose, hq]
-      | true =>
-        have h1 := hn.1
-        simp only [hq, Bool.true_and] at h1
-        simp only [isClose, hq, Bool.true_and, Bool.not_true, Bool.false_or]
-        match r, h1 with
-        | [], _ =>
-          match t, ht with
-          | [], _ => simp
-          | x :: t', ht =>
-            have := ht x t' rfl
-            cases t' <;> simp [this]
-        | [x], h1 =>
-          match t, ht with
-          | [], _ => simp
-          | y :: t', ht =>
-            have := ht y t' rfl
-            simp [this]
-        | x :: y :: r', h1 => simpa using h1
-    simp [lexS, normCase, hclose, hc.1, ih', emit_some]
+theorem lexS_esc_char (long : Bool) (q c d : Char) (rest : List Char) (h : escKind c = .char d) :
+    lexS long q .esc (c :: rest) = emit d (lexS long q .norm rest) := by
+  simp [lexS, escCase, h]
 
-theorem lexSrc_docWrapL (d : List Char) (hd : ∀ c ∈ d, docChar c = true)
-    (hn : noTriple d = true) : lexSrc (docWrapL d) = some (docValueL d) := by
-  have hmem : ∀ c ∈ docWrapL d, c = cDQ ∨ c = cLF ∨ c = ' ' ∨ c ∈ d := by
+theorem lexS_norm_raw (long : Bool) (q c : Char) (rest : List Char)
+    (h1 : isClose long q c rest = false) (h2 : c ≠ cBS) (h3 : ¬ (c = cLF ∧ long = false)) :
+    lexS long q .norm (c :: rest) = emit c (lexS long q .norm rest) := by
+  simp [lexS, normCase, h1, h2, h3]
+
+theorem lexS_norm_bs (long : Bool) (q : Char) (hq : q ≠ cBS) (rest : List Char) :
+    lexS long q .norm (cBS :: rest) = lexS long q .esc rest := by
+  have : ¬ (cBS = q) := fun h => hq h.symm
+  cases rest <;> simp [lexS, normCase, isClose, this]
+
+/-- first character of the escaped text followed by `t` -/
+theorem docEsc_head (r t : List Char) (ht : ∀ c r', t = c :: r' → c ≠ cDQ) (y : Char)
+    (ys : List Char) (h : docEsc 0 r ++ t = y :: ys) (hy : y = cDQ) :
+    ∃ r', r = cDQ :: r' ∧ (r'.take 2 == [cDQ, cDQ]) = false ∧ ys = docEsc 0 r' ++ t := by
+  have hbs : cBS ≠ cDQ := by decide
+  subst hy
+  match r with
+  | [] =>
+    simp only [docEsc, List.nil_append] at h
+    exact absurd rfl (ht _ _ h)
+  | x :: r' =>
+    by_cases hx : x = cDQ
+    · subst hx
+      cases h3 : (r'.take 2 == [cDQ, cDQ]) with
+      | true =>
+        simp only [docEsc, if_true, Nat.lt_irrefl, if_false, h3, List.cons_append] at h
+        exact absurd (List.cons.inj h).1 hbs
+      | false =>
+        simp only [docEsc, if_true, Nat.lt_irrefl, if_false, h3, Bool.false_eq_true,
+          List.cons_append] at h
+        exact ⟨r', rfl, h3, (List.cons.inj h).2.symm⟩
+    · exfalso
+      by_cases hxb : x = cBS
+      · subst hxb
+        simp only [docEsc, hx, if_false, if_true, List.cons_append] at h
+        exact hbs (List.cons.inj h).1
+      · by_cases hxc : x = cCR
+        · subst hxc
+          simp only [docEsc, hx, hxb, if_false, if_true, List.cons_append] at h
+          exact hbs (List.cons.inj h).1
+        · simp only [docEsc, hx, hxb, hxc, if_false, List.cons_append] at h
+          exact hx (List.cons.inj h).1
+
+/-- the escaped text followed by `t` begins with two raw quotes only if the description begins
+    with two quotes -/
+theorem docEsc_take2 (r t : List Char) (ht : ∀ c r', t = c :: r' → c ≠ cDQ)
+    (h : (docEsc 0 r ++ t).take 2 = [cDQ, cDQ]) : r.take 2 = [cDQ, cDQ] := by
+  match hL : docEsc 0 r ++ t, h with
+  | y :: z :: zs, h =>
+    simp only [List.take_succ_cons, List.take_zero, List.cons.injEq, and_true] at h
+    obtain ⟨r1, hr1, _, hys⟩ := docEsc_head r t ht y (z :: zs) hL h.1
+    obtain ⟨r2, hr2, _, _⟩ := docEsc_head r1 t ht z zs hys.symm h.2
+    subst hr1; subst hr2
+    simp
+  | [y], h => simp at h
+  | [], h => simp at h
+
+/-- the escaped description followed by a tail that does not start with a quote lexes to the
+    description followed by whatever the tail lexes to — every description, in every state -/
+theorem lexS_docEsc (t v : List Char) (ht : ∀ c r, t = c :: r → c ≠ cDQ)
+    (hv : lexS true cDQ .norm t = some v) :
+    ∀ (d : List Char) (k : Nat), lexS true cDQ .norm (docEsc k d ++ t) = some (d ++ v) := by
+  have hqb : cDQ ≠ cBS := by decide
+  have eDQ : escKind cDQ = .char cDQ := by decide
+  have eBS : escKind cBS = .char cBS := by decide
+  have eR : escKind 'r' = .char cCR := by decide
+  intro d
+  induction d with
+  | nil => intro k; simpa [docEsc] using hv
+  | cons c r ih =>
+    intro k
+    by_cases hc : c = cDQ
+    · subst hc
+      by_cases hk : 0 < k
+      · simp only [docEsc, if_true, hk, List.cons_append]
+        rw [lexS_norm_bs _ _ hqb, lexS_esc_char _ _ _ _ _ eDQ, ih, emit_some]
+      · cases h3 : (r.take 2 == [cDQ, cDQ]) with
+        | true =>
+          simp only [docEsc, if_true, hk, if_false, h3, List.cons_append]
+          rw [lexS_norm_bs _ _ hqb, lexS_esc_char _ _ _ _ _ eDQ, ih, emit_some]
+        | false =>
+          simp only [docEsc, if_true, hk, if_false, h3, Bool.false_eq_true, List.cons_append]
+          have hclose : isClose true cDQ cDQ (docEsc 0 r ++ t) = false := by
+            simp only [isClose, beq_self_eq_true, Bool.true_and, Bool.not_true, Bool.false_or]
+            apply Bool.eq_false_iff.2
+            intro hcon
+            have := docEsc_take2 r t ht (by simpa using hcon)
+            simp [this] at h3
+          rw [lexS_norm_raw _ _ _ _ hclose hqb (by simp), ih, emit_some]
+    · have hclose : ∀ rest, isClose true cDQ c rest = false := by
+        intro rest; simp [isClose, hc]
+      by_cases hb : c = cBS
+      · subst hb
+        simp only [docEsc, hc, if_false, if_true, List.cons_append]
+        rw [lexS_norm_bs _ _ hqb, lexS_esc_char _ _ _ _ _ eBS, ih, emit_some]
+      · by_cases hr : c = cCR
+        · subst hr
+          simp only [docEsc, hc, hb, if_false, if_true, List.cons_append]
+          rw [lexS_norm_bs _ _ hqb, lexS_esc_char _ _ _ _ _ eR, ih, emit_some]
+        · simp only [docEsc, hc, hb, hr, if_false, List.cons_append]
+          rw [lexS_norm_raw _ _ _ _ (hclose _) hb (by simp), ih, emit_some]
+
+theorem docEsc_mem (d : List Char) : ∀ (k : Nat) (x : Char), x ∈ docEsc k d →
+    x = cBS ∨ x = cDQ ∨ x = 'r' ∨ (x ∈ d ∧ x ≠ cCR) := by
+  induction d with
+  | nil => intro k x hx; simp [docEsc] at hx
+  | cons c r ih =>
+    intro k x hx
+    have lift : (x = cBS ∨ x = cDQ ∨ x = 'r' ∨ (x ∈ r ∧ x ≠ cCR)) →
+        x = cBS ∨ x = cDQ ∨ x = 'r' ∨ (x ∈ c :: r ∧ x ≠ cCR) := by
+      rintro (h | h | h | ⟨h1, h2⟩)
+      · exact Or.inl h
+      · exact Or.inr (Or.inl h)
+      · exact Or.inr (Or.inr (Or.inl h))
+      · exact Or.inr (Or.inr (Or.inr ⟨by simp [h1], h2⟩))
+    unfold docEsc at hx
+    split at hx
+    · split at hx
+      · simp only [List.mem_cons] at hx
+        rcases hx with h | h | h
+        · exact Or.inl h
+        · exact Or.inr (Or.inl h)
+        · exact lift (ih _ x h)
+      · split at hx
+        · simp only [List.mem_cons] at hx
+          rcases hx with h | h | h
+          · exact Or.inl h
+          · exact Or.inr (Or.inl h)
+          · exact lift (ih _ x h)
+        · simp only [List.mem_cons] at hx
+          rcases hx with h | h
+          · exact Or.inr (Or.inl h)
+          · exact lift (ih _ x h)
+    · split at hx
+      · simp only [List.mem_cons] at hx
+        rcases hx with h | h | h
+        · exact Or.inl h
+        · exact Or.inl h
+        · exact lift (ih _ x h)
+      · split at hx
+        · simp only [List.mem_cons] at hx
+          rcases hx with h | h | h
+          · exact Or.inl h
+          · exact Or.inr (Or.inr (Or.inl h))
+          · exact lift (ih _ x h)
+        · rename_i hcr
+          simp only [List.mem_cons] at hx
+          rcases hx with h | h
+          · subst h
+            exact Or.inr (Or.inr (Or.inr ⟨by simp, hcr⟩))
+          · exact lift (ih _ x h)
+
+/-- the docstring literal denotes the intended `__doc__` for EVERY description without NUL -/
+theorem lexSrc_docWrapL (d : List Char) (hnul : cNUL ∉ d) :
+    lexSrc (docWrapL d) = some (docValueL d) := by
+  have hA : ∀ c ∈ [cDQ, cDQ, cDQ, cLF] ++ indent4, c = cDQ ∨ c = cLF ∨ c = ' ' := by decide
+  have hB : ∀ c ∈ [cLF] ++ indent4 ++ [cDQ, cDQ, cDQ], c = cDQ ∨ c = cLF ∨ c = ' ' := by decide
+  have hshape : docWrapL d = ([cDQ, cDQ, cDQ, cLF] ++ indent4)
+      ++ (docEsc 0 d ++ ([cLF] ++ indent4 ++ [cDQ, cDQ, cDQ])) := by
+    simp [docWrapL, List.append_assoc]
+  have hmem : ∀ c ∈ docWrapL d, c = cDQ ∨ c = cLF ∨ c = ' ' ∨ c = cBS ∨ c = 'r' ∨ (c ∈ d ∧ c ≠ cCR) := by
     intro c hc
-    simp [docWrapL, indent4] at hc
-    rcases hc with h | h | h | h | h | h | h
-    · exact Or.inl h
-    · exact Or.inr (Or.inl h)
-    · exact Or.inr (Or.inr (Or.inl h))
-    · exact Or.inr (Or.inr (Or.inr h))
-    · exact Or.inr (Or.inl h)
-    · exact Or.inr (Or.inr (Or.inl h))
-    · exact Or.inl h
+    rw [hshape] at hc
+    have lift3 : (c = cDQ ∨ c = cLF ∨ c = ' ') →
+        c = cDQ ∨ c = cLF ∨ c = ' ' ∨ c = cBS ∨ c = 'r' ∨ (c ∈ d ∧ c ≠ cCR) := by
+      rintro (h | h | h)
+      · exact Or.inl h
+      · exact Or.inr (Or.inl h)
+      · exact Or.inr (Or.inr (Or.inl h))
+    rcases List.mem_append.1 hc with h | h
+    · exact lift3 (hA c h)
+    · rcases List.mem_append.1 h with h | h
+      · rcases docEsc_mem d 0 c h with h | h | h | h
+        · exact Or.inr (Or.inr (Or.inr (Or.inl h)))
+        · exact Or.inl h
+        · exact Or.inr (Or.inr (Or.inr (Or.inr (Or.inl h))))
+        · exact Or.inr (Or.inr (Or.inr (Or.inr (Or.inr h))))
+      · exact lift3 (hB c h)
   have hCR : ∀ c ∈ docWrapL d, c ≠ cCR := by
     intro c hc
-    rcases hmem c hc with rfl | rfl | rfl | h
+    rcases hmem c hc with rfl | rfl | rfl | rfl | rfl | h
     · decide
     · decide
     · decide
-    · exact ((docChar_iff c).1 (hd c h)).2.1
+    · decide
+    · decide
+    · exact h.2
   have hNUL : (docWrapL d).contains cNUL = false := by
     apply Bool.eq_false_iff.2
     intro hcon
-    rcases hmem cNUL (List.contains_iff_mem.1 hcon) with h | h | h | h
+    rcases hmem cNUL (List.contains_iff_mem.1 hcon) with h | h | h | h | h | h
     · exact absurd h (by decide)
     · exact absurd h (by decide)
     · exact absurd h (by decide)
-    · exact ((docChar_iff cNUL).1 (hd cNUL h)).2.2 rfl
-  have hbody : lexS true cDQ .norm ([cLF] ++ indent4 ++ (d ++ ([cLF] ++ indent4 ++ [cDQ, cDQ, cDQ])))
+    · exact absurd h (by decide)
+    · exact absurd h (by decide)
+    · exact hnul h.1
+  have h2 := lexS_docEsc ([cLF] ++ indent4 ++ [cDQ, cDQ, cDQ]) ([cLF] ++ indent4)
+    (by intro c r h; simp at h; rw [← h.1]; decide) docTail_lex d 0
+  have hbody : lexS true cDQ .norm ([cLF] ++ indent4 ++ (docEsc 0 d ++ ([cLF] ++ indent4 ++ [cDQ, cDQ, cDQ])))
       = some ([cLF] ++ indent4 ++ (d ++ ([cLF] ++ indent4))) := by
-    have h2 := lexS_doc d ([cLF] ++ indent4 ++ [cDQ, cDQ, cDQ]) ([cLF] ++ indent4) hd hn
-      (by intro c r h; simp at h; rw [← h.1]; decide) docTail_lex
     simp [lexS, normCase, isClose, indent4, cLF, cDQ, cBS] at h2 ⊢
     rw [h2]; rfl
   unfold lexSrc
   rw [hNUL, normNewlines, nnl_id _ hCR]
   simp only [docWrapL, docValueL] at hbody ⊢
   simpa [cDQ, cSQ, List.append_assoc] using hbody
-
 
 /-! ### `repr(str)` always lexes back to the string -/
 
